@@ -157,8 +157,18 @@ class from_textfile(Source):
     """
     def __init__(self, f, poll_interval=0.100, delimiter='\n',
                  from_end=False, **kwargs):
+        self._decoder = None
         if isinstance(f, str):
-            f = open(f)
+            # read bytes and decode them incrementally: a write may end in
+            # the middle of a multi-byte character, which a text-mode read()
+            # cannot cope with
+            import codecs
+            import io
+            import locale
+            f = open(f, 'rb')
+            self._decoder = io.IncrementalNewlineDecoder(
+                codecs.getincrementaldecoder(locale.getpreferredencoding(False))(),
+                translate=True)
         self.buffer = ''
         self.file = f
         self.from_end = from_end
@@ -172,6 +182,8 @@ class from_textfile(Source):
 
     async def _run(self):
         line = self.file.read()
+        if line and self._decoder is not None:
+            line = self._decoder.decode(line)
         if line:
             self.buffer = self.buffer + line
             if self.delimiter in self.buffer:
